@@ -12,10 +12,8 @@ EXPLANATION = (
     "values; CrossHair+z3 exhaust every feasible path; the assertion is 'no exception escapes'."
 )
 BOUNDS = {
-    "quick": "block unit FREE(3)(+newline) x {commonmark, js-default}; inline unit FREE(3); pipeline FREE(2) x presets; "
-             "CTX scaffolds with 1-2 free characters (containers, EOF shapes, terminator positions under leave-one-out); "
-             "nesting scaffolds with symbolic maxNesting 1..4",
-    "thorough": "as quick with FREE(4) block/inline units, FREE(3) pipeline, all CTX scaffolds x all leave-one-out configurations",
+    "quick": 'block unit: 3 free characters (with and without final newline) under js-default; inline unit: 2 free characters; pipeline (normalize included): 2 free characters under commonmark, js-default, zero; 18 block contexts (containers, EOF shapes, table/fence/html/reference follow-ups, quote without blank, tab-indented list) with 2 free characters, the paragraph follow-up also under 6 leave-one-out configurations; 19 inline contexts with 1 free character (URL slots: ASCII + 7 non-ASCII representatives); nesting scaffolds with symbolic maxNesting 1..4',
+    "thorough": 'all quick jobs (core) plus the deeper families of thorough_extra() (not core): more free characters, the commonmark preset, the contexts the quick tier had to shed (DESIGN.md 10.5)',
 }
 OUTSIDE = ("documents needing more free characters away from every scaffold; linkifier (library not installed); "
            "CLI byte decoding (reduced by the codec contract errors='ignore' to render on str); hangs beyond the per-path cap are "
